@@ -48,6 +48,7 @@ def check(repo, rep, tier):
     c06.r_scan_deep(repo, rep, 'R3.1')
     c06.r_feature_loop(repo, rep, 'R3.1')
     c06.r_feature_relations(repo, rep, 'R3.1')
+    ru.r_instantiation(repo, rep, 'R3.1')
     from .c13 import r_xor
     r_xor(repo.module('depccg/cat.py'), rep, 'R3.1')     # scan() compares a twice-bound variable's two values with ^
     rep.floor('registered English combinators', len(reg), 13)
